@@ -23,10 +23,19 @@ LEXEMES = {
 ITEMS = ['Include', 'CppInclude', 'Namespace', 'Typedef', 'Constant', 'Enum', 'Struct', 'Union', 'Exception', 'Service']
 
 
+def comment_name(g):
+    """the comment lexeme is whatever `blank` repeats besides multispace1 (it is a private function: found by its role)"""
+    for t in g.trees.get('blank') or []:
+        refs = {n.text for n in g.walk(t) if n.kind == 'ref'}
+        if len(refs) == 1:
+            return refs.pop()
+    return 'comment'
+
+
 def lexemes(g):
     """the lexeme parsers: the named ones plus every parser that is used only inside lexemes (e.g. the per-quote helpers of
     Literal, whatever they are called)"""
-    lex = set(LEXEMES)
+    lex = set(LEXEMES) - {'comment'} | {comment_name(g)}
     users = {}
     for name, ts in g.trees.items():
         for t in ts:
@@ -40,7 +49,7 @@ def lexemes(g):
         changed = False
         for name in g.trees:
             # only helpers of the token-level parsers inherit (Item merely dispatches to the declarations)
-            if name not in lex and users.get(name) and users[name] <= (lex - {'Item', 'blank', 'comment', 'list_separator'}):
+            if name not in lex and users.get(name) and users[name] <= (lex - {'Item', 'blank', comment_name(g), 'list_separator'}):
                 lex.add(name)
                 changed = True
     return lex
@@ -431,7 +440,8 @@ def rule_f(rep, g, prog, cg):
 
 def rule_g(rep, g):
     rule = 'R15.g'
-    ts = g.trees.get('comment') or []
+    cname = comment_name(g)
+    ts = g.trees.get(cname) or []
     if not ts or ts[0].kind != 'alt':
         rep.anchor_missing(rule, 'comment alt')
         return
@@ -446,7 +456,7 @@ def rule_g(rep, g):
         key = '%s|comment %s' % (rule, st)
         x = starts.get(st)
         if x is None:
-            rep.bad(rule, key, g.bodies['comment'].loc(), 'comment style %r is not accepted' % st)
+            rep.bad(rule, key, g.bodies[cname].loc(), 'comment style %r is not accepted' % st)
             continue
         if st in ('//', '#'):
             # everything after the opener must be able to match at end of input
@@ -456,11 +466,11 @@ def rule_g(rep, g):
                 flat.extend(list(g.walk(r)))
             hard = [n for n in flat if (n.kind == 'cc' and getattr(n, 'fn', n.text) in ('line_ending', 'newline', 'char')) or (n.kind == 'tag' and n.text in ('\n', '\r\n'))]
             if hard or not all(g.attr('nullable', r) for r in rest):
-                rep.bad(rule, key, g.bodies['comment'].loc(), 'a %r comment requires a line terminator (%r): a document whose last token is such a comment without trailing newline no longer parses' % (st, rest))
+                rep.bad(rule, key, g.bodies[cname].loc(), 'a %r comment requires a line terminator (%r): a document whose last token is such a comment without trailing newline no longer parses' % (st, rest))
             else:
-                rep.ok(rule, key, 'may end at end of input', g.bodies['comment'].loc())
+                rep.ok(rule, key, 'may end at end of input', g.bodies[cname].loc())
         else:
-            rep.ok(rule, key, 'block comment delimited by */', g.bodies['comment'].loc())
+            rep.ok(rule, key, 'block comment delimited by */', g.bodies[cname].loc())
     def strip(n):
         while n.kind in ('map', 'recognize', 'complete') and n.kids:
             n = n.kids[0]
@@ -475,7 +485,7 @@ def rule_g(rep, g):
     if x is not None and x.kind == 'many1':
         y = strip(x.kids[0])
         alts = {repr(strip(k)) for k in (y.kids if y.kind == 'alt' else [y])}
-    if alts == {'comment', 'multispace1'}:
+    if alts == {cname, 'multispace1'}:
         rep.ok(rule, key, r, g.bodies['blank'].loc())
     else:
         rep.bad(rule, key, g.bodies['blank'].loc() if 'blank' in g.bodies else '', 'blank is no longer one or more of {comment, multispace1}: %s' % r)
@@ -626,6 +636,28 @@ def rule_n(rep, g):
         rep.bad(rule, key, g.bodies['IntConstant'].loc() if 'IntConstant' in g.bodies else '', 'IntConstant no longer accepts a minus sign')
 
 
+def _in_map_type(n):
+    """is this node part of the sequence 'map' ... '<' ... HERE ... '>' (however the sequence is nested into
+    preceded / delimited / tuple groups)?"""
+    top = n
+    while top.parent is not None and top.parent.kind in ('seq', 'map'):
+        top = top.parent
+    tags = []
+
+    def leaves(x):
+        if x is n:
+            tags.append('@')
+        elif x.kind == 'tag':
+            tags.append(x.text)
+        for k in x.kids:
+            leaves(k)
+    leaves(top)
+    if '@' not in tags or not tags or tags[0] != 'map':
+        return False
+    i = tags.index('@')
+    return '<' in tags[:i] and '>' in tags[i + 1:]
+
+
 def rule_s(rep, g):
     """R15.s - the IDL leaves list separators free (comma, semicolon or none): every use of list_separator in the
     grammar is optional. A separator that is the mandatory element of a sequence or the `sep` of separated_list0/1
@@ -643,7 +675,7 @@ def rule_s(rep, g):
                 rep.ok(rule, key, 'opt(list_separator)', g.bodies[name].loc())
             elif parent is not None and parent.kind in ('many0',):
                 rep.ok(rule, key, 'many0(list_separator)', g.bodies[name].loc())
-            elif parent is not None and parent.kind == 'seq' and parent.kids and parent.kids[0].kind == 'tag' and parent.kids[0].text == 'map' and any(k.kind == 'tag' and k.text == '<' for k in parent.kids):
+            elif parent is not None and parent.kind == 'seq' and _in_map_type(n):
                 # MapType ::= 'map' '<' FieldType ',' FieldType '>' : this comma is part of the type syntax, not a list separator
                 rep.ok(rule, key, "the comma of map<K, V> (required by the grammar)", g.bodies[name].loc())
             else:
